@@ -346,7 +346,9 @@ Ind(i, d) ==
 Change(i, v) == /\ i \in Chars \ NoEv /\ v \in Vals /\ v # s.aval[i] /\ On("Change")
                 /\ Commit(R([s EXCEPT !.aval[i] = v], <<[ev |-> "chg", i |-> i, v |-> v]>>))
 
-\* what is visible from outside when the library has nothing left to run
+\* what is visible from outside when the library has nothing left to run: pairing.subscriptions, what is pending at the
+\* Bluetooth boundary, the remaining times of the loop's timers, is_connected (ObsRec); and - optional, recorded when the
+\* attributes exist - _notifications, _broadcast_notifications, _restore_pending, _shutdown (WbRec)
 Pend(S) == IF ~Running(S) THEN ""
            ELSE LET pc == HeadOp(S).pc IN
                 IF pc = "connecting" THEN "conn" ELSE IF pc \in GattPcs THEN "gatt" ELSE IF pc = "sn" THEN "sn" ELSE ""
